@@ -462,6 +462,9 @@ def float_binop(op, a, b):
         if op == '%':
             return SymFloat(iz=x - y * fdiv(x, y))
     ra, rb = _real(ka), _real(kb)
+    if op in ('+', '*') and (ra.hash(), ra.get_id()) > (rb.hash(), rb.get_id()):
+        # IEEE + and * commute: build the same term for either operand order
+        ra, rb, ka, kb = rb, ra, kb, ka
     # exact special cases
     if op == '*':
         for u, v in ((ka, kb), (kb, ka)):
